@@ -20,7 +20,7 @@ func countTransactions(w http.ResponseWriter, r *http.Request) {
 
 	count, err := common.LedgerFromContext(r.Context()).CountTransactions(r.Context(), *rq)
 	if err != nil {
-		common.HandleCommonErrors(w, r, err)
+		common.HandleCommonPaginationErrors(w, r, err)
 		return
 	}
 
